@@ -478,6 +478,9 @@ func Datetime(errBuf *strings.Builder, validName, objName, fieldName string, tv 
 	defaultSplit := []string{"-", " ", ":"}
 	if val != "" {
 		for i, split := range strings.Split(strings.Trim(val, "'"), ",") {
+			if i >= len(defaultSplit) { // 最多 3 个分隔符, 多余的忽略
+				break
+			}
 			defaultSplit[i] = split
 		}
 	}
